@@ -145,14 +145,22 @@ def _check_main(ctx, res) -> None:
             t = n.targets[0]
             if isinstance(t, ast.Tuple) and len(t.elts) == 2 and is_self_attr(t.elts[1], "newlines"):
                 ok_b = True
+    # ... or by index: `decoded = decoder(data)` ; `self.newlines = decoded[1]`
+    from .common import pair_component
+    for n in walk_local(fread.node):
+        if isinstance(n, ast.Assign) and any(is_self_attr(t, "newlines") for t in n.targets) \
+                and pair_component(fread.node, n.value, {"file_data_to_unicode"}) == 1:
+            ok_b = True
     res.add("R16.2", "store", ok_b, fread.where,
             "File.read stores the detected convention in self.newlines" if ok_b else
             "File.read does not store the newline convention returned by the decoder in self.newlines: writes fall back to LF")
     # (c) write_file passes it on
     wf = idx.need_func("rope.base.change._ResourceOperations.write_file")
+    from .common import inline_private_calls
+    wf_node = inline_private_calls(idx, wf)  # a step of write_file that was moved into a private helper is read in place
     rparam = first_param(wf.node)
     ok_c = False
-    for c in calls_in(wf.node):
+    for c in calls_in(wf_node):
         if idx.resolve(wf.unit.modname, c.func) == ENC:
             for k in c.keywords:
                 if k.arg == "newlines" and isinstance(k.value, ast.Attribute) and k.value.attr == "newlines" \
@@ -164,7 +172,8 @@ def _check_main(ctx, res) -> None:
             "write_file passes resource.newlines to the encoder" if ok_c else
             "write_file does not pass the written resource's newline convention to the encoder: CRLF/CR files are rewritten with LF")
     # (d) encoder applies it
-    cfg = CFG(enc.node)
+    enc_node = inline_private_calls(idx, enc)  # the rewrite may live in a private helper
+    cfg = CFG(enc_node)
     ok_d = False
     excluded = []
     for n in cfg.nodes:
@@ -205,9 +214,9 @@ def _check_main(ctx, res) -> None:
     # callee-level discharge: write_file itself makes sure the convention is known before encoding: every path to the
     # encoder call passes a read of the resource, except through the edges "newlines is not None" (already known) and
     # "not resource.exists()" (nothing on disk whose convention could be lost)
-    wcfg = CFG(wf.node)
+    wcfg = CFG(wf_node)
     callee_reads = False
-    for c in calls_in(wf.node):
+    for c in calls_in(wf_node):
         if idx.resolve(wf.unit.modname, c.func) == ENC:
             en = wcfg.node_containing(c)[0]
             read_nodes = [n.id for n in wcfg.nodes if n.ast is not None and n.kind in ("stmt", "test") and any(
@@ -332,7 +341,7 @@ def module_header_rule(ctx, res, rule: str) -> None:
     f = idx.need_func("rope.refactor.move.MoveGlobal._get_moving_region")
     loops = [w for w in walk_local(f.node) if isinstance(w, ast.While) and
              (any(isinstance(y, ast.Constant) and y.value == "#" for y in ast.walk(w.test)) or
-              any(isinstance(c, ast.Call) and is_self_attr(c.func) and "comment" in c.func.attr for c in ast.walk(w.test)))]
+              any(isinstance(c, ast.Call) and "comment" in call_name(c) for c in ast.walk(w.test)))]  # self._is_comment..(..) or a module-level helper
     if not loops:
         raise AnalysisError("anchor=MoveGlobal._get_moving_region: loop absorbing the comment lines above the definition not found")
 
@@ -365,14 +374,37 @@ def first_import_line_rule(ctx, res, rule: str) -> None:
     (header comments, docstring, first statement) -- never a constant line number, which puts it above the shebang and
     the coding line."""
     idx = ctx.idx
-    f = idx.need_func("rope.refactor.importutils.module_imports.ModuleImports._get_new_import_lineno")
-    rets = [r for r in walk_local(f.node) if isinstance(r, ast.Return) and r.value is not None]
-    if not rets:
-        raise AnalysisError("anchor=ModuleImports._get_new_import_lineno: no return")
-    consts = [r for r in rets if isinstance(r.value, ast.Constant)]
-    res.add(rule, "_get_new_import_lineno|computed", not consts, f"{f.unit.rel}:{(consts[0] if consts else rets[0]).lineno}",
+    f = idx.need_func("rope.refactor.importutils.module_imports.ModuleImports.add_import")
+    # the line handed to the new ImportStatement: every value it can take, followed through locals and private helpers
+    ctor = [c for c in calls_in(f.node) if call_name(c) == "ImportStatement" and len(c.args) >= 2]
+    if not ctor:
+        raise AnalysisError("anchor=ModuleImports.add_import: construction of the new ImportStatement not found")
+
+    def values(fn, e, depth=0):
+        """the expressions `e` can evaluate to: through local assignments and through the returns of private helpers"""
+        if depth > 3:
+            return [(fn, e)]
+        if isinstance(e, ast.Name):
+            defs = [x.value for x in walk_local(fn.node) if isinstance(x, ast.Assign) and any(isinstance(t, ast.Name) and t.id == e.id for t in x.targets)]
+            if defs:
+                return [v for d in defs for v in values(fn, d, depth + 1)]
+            return [(fn, e)]
+        if isinstance(e, ast.Call) and is_self_attr(e.func) and fn.cls is not None:
+            h = idx.find_method(fn.cls.qualname, e.func.attr)
+            if h is not None and h.name.startswith("_"):
+                rets = [r.value for r in walk_local(h.node) if isinstance(r, ast.Return) and r.value is not None]
+                if rets:
+                    return [v for r in rets for v in values(h, r, depth + 1)]
+        if isinstance(e, ast.IfExp):
+            return values(fn, e.body, depth + 1) + values(fn, e.orelse, depth + 1)
+        return [(fn, e)]
+
+    vals = [v for c in ctor for v in values(f, c.args[1])]
+    consts = [(g, v) for g, v in vals if isinstance(v, ast.Constant)]
+    where = f"{consts[0][0].unit.rel}:{consts[0][1].lineno}" if consts else f"{f.unit.rel}:{ctor[0].lineno}"
+    res.add(rule, "_get_new_import_lineno|computed", not consts, where,
             "the line for a new import is computed from the module on every path" if not consts else
-            f"_get_new_import_lineno answers the constant line {consts[0].value.value} for a module without imports: the import is inserted above the shebang, the "
+            f"the line of a new import can be the constant {consts[0][1].value} (for a module without imports): the import is inserted above the shebang, the "
             "coding line (which then slides below line 2 and is no longer honoured: a latin-1 file is rewritten as UTF-8) and the docstring",
             function=f.qualname)
 
